@@ -15,7 +15,7 @@ Statement forms (tuples):
 Every waiting statement is logged:  L <tick> <fiber> :<label> <result or (:err msg)>.
 """
 
-WAITS = ("sleep", "take", "give", "select", "read", "readt", "write", "writet", "chunk", "pwait", "deadline")
+WAITS = ("sleep", "take", "give", "select", "read", "readt", "write", "writet", "chunk", "pwait", "deadline", "raw")
 
 
 def jv(v):
@@ -49,6 +49,8 @@ def emit_wait(st):
         return "(os/proc-wait %s)" % st[1]
     if k == "deadline":
         return "(ev/with-deadline %s %s)" % (ms(st[1]), emit_wait(st[2]))
+    if k == "raw":
+        return st[1]
     raise ValueError(st)
 
 
@@ -70,6 +72,7 @@ class Scenario:
         self.expect = {}     # oracle expectations
         self.meta = {}
         self.labels = 0
+        self.setup = []      # raw janet lines emitted after the object definitions
 
     def chan(self, name, cap=0):
         self.chans[name] = cap
@@ -122,6 +125,7 @@ class Scenario:
             out.append('(verif/name %sr "%sr") (verif/name %sw "%sw")' % (p, p, p, p))
         for k in self.procs:
             out.append('(def %s (os/spawn ["/bin/sh" "-c" "read x; exit 7"] :p {:in :pipe}))' % k)
+        out += self.setup
         out += self.emit_stmts(self.main, "M", "")
         return "\n".join(out)
 
@@ -131,7 +135,7 @@ class Scenario:
         (channels, timers, cancel, deadlines; no kernel objects)."""
         def ok(stmts):
             for st in stmts:
-                if st[0] in ("read", "readt", "write", "writet", "chunk", "pwait", "exitproc", "closew", "closer", "settle"):
+                if st[0] in ("read", "readt", "write", "writet", "chunk", "pwait", "exitproc", "closew", "closer", "settle", "raw"):
                     return False
                 if st[0] == "deadline" and not ok([st[2]]):
                     return False
@@ -205,6 +209,25 @@ class Scenario:
 # =====================================================================================================
 
 A_KINDS = ["sleep", "take", "give", "seltake", "selgive", "read", "readT", "write", "pwait", "dl"]
+# calls that fail early with an error although they carry a timeout / deadline: (name, janet expression)
+BAD_CALLS = [
+    ("read-neg", '(ev/read pAr -1 @"" 0.015)'), ("read-kw", '(ev/read pAr :bogus @"" 0.015)'), ("read-float", '(ev/read pAr 1.5 @"" 0.015)'),
+    ("read-badbuf", '(ev/read pAr 10 :notbuf 0.015)'), ("read-notreadable", '(ev/read pAw 10 @"" 0.015)'),
+    ("read-closed", '(ev/read pCr 10 @"" 0.015)'), ("read-method-neg", '(:read pAr -1 @"" 0.015)'),
+    ("chunk-neg", '(ev/chunk pAr -1 @"" 0.015)'), ("chunk-closed", '(ev/chunk pCr 10 @"" 0.015)'),
+    ("write-badtype", '(ev/write pAw :notbytes 0.015)'), ("write-notwritable", '(ev/write pAr "x" 0.015)'),
+    ("write-closed", '(ev/write pCw "x" 0.015)'),
+    ("net-read-neg", '(net/read sock -1 @"" 0.015)'), ("net-chunk-neg", '(net/chunk sock -1 @"" 0.015)'),
+    ("net-recvfrom-neg", '(net/recv-from sock -1 @"" 0.015)'), ("net-write-bad", '(net/write sock :bad 0.015)'),
+    ("net-sendto-badaddr", '(net/send-to sock :bad "x" 0.015)'), ("net-accept-notlistener", '(net/accept sock 0.015)'),
+    ("net-read-pipe", '(net/read pAr 10 @"" 0.015)'),
+    ("dl-take-notchan", '(ev/with-deadline 0.015 (ev/take :notchan))'), ("dl-give-closed", '(ev/with-deadline 0.015 (ev/give cC :x))'),
+    ("dl-sleep-bad", '(ev/with-deadline 0.015 (ev/sleep :x))'), ("dl-pwait-bad", '(ev/with-deadline 0.015 (os/proc-wait :x))'),
+    ("dl-select-empty", '(ev/with-deadline 0.015 (ev/select))'), ("dl-error", '(ev/with-deadline 0.015 (error "boom"))'),
+    ("dl-read-neg", '(ev/with-deadline 0.015 (ev/read pAr -1))'), ("dl-manual", '(do (ev/deadline 0.015) (error "boom"))'),
+    ("dl-select-badclause", '(ev/with-deadline 0.015 (ev/select cC2 [:notchan 1]))'),
+]
+
 B_KINDS = ["sleep", "take", "give", "seltake", "selgive", "read", "write", "pwait", "dl", "dlx", "same"]
 
 
@@ -235,9 +258,13 @@ def a_variants():
             "pwait": ["exit"],
             "dl": ["pass"],
         }[a]
+        if a in ("seltake", "selgive"):
+            abandons.append("immediate")       # the select completes at once through the other clause: nothing may stay registered
         for ab in abandons:
             for fi in fires:
                 out.append((a, ab, fi))
+    for name, _ in BAD_CALLS:
+        out.append(("bad:" + name, "error", "pass"))
     return out
 
 
@@ -286,6 +313,16 @@ def build(sid, a, ab, fi, b, extra=None):
     elif a == "dl":
         s.chan("cZ", 1)
         A = ("deadline", 15, ("take", "cZ"))
+    elif a.startswith("bad:"):
+        if b == "same":
+            return None
+        s.pipe("pA")
+        s.pipe("pC")
+        s.chan("cC", 0)
+        s.chan("cC2", 0)
+        s.setup += ["(ev/close pCr) (ev/close pCw) (ev/chan-close cC)",
+                    '(def sock (net/listen "127.0.0.1" "0" :datagram))']
+        A = ("raw", dict(BAD_CALLS)[a[4:]])
     # abandon
     a_res = None
     if ab == "deadline":
@@ -360,8 +397,15 @@ def build(sid, a, ab, fi, b, extra=None):
     F.append(("sleep", 0))         # a third, trivial wait: F must get through it undisturbed
     # ------------------------------------------------------------------ driver M
     M.append(("spawn", "Z", [("sleep", 15)]))
+    if ab == "immediate":
+        M.append(("give", "cX", "vx"))      # cX has capacity 1: the other clause is ready before F starts
     M.append(("spawn", "F", F))
-    if ab == "cancel0":
+    if ab in ("immediate", "error"):
+        # F never suspends in A: it is in B from tick 0 on
+        a_res = "(:take,cX,:vx)" if ab == "immediate" else "ERR"
+        t_ab = 0
+        M.append(("sleep", 10))
+    elif ab == "cancel0":
         # cancellation point: immediately after F registered, same tick, no timer involved
         M.append(("sleep", 0))
         M.append(("cancel", "F", "stop"))
@@ -452,7 +496,12 @@ def build(sid, a, ab, fi, b, extra=None):
     elif item_left:
         m_final.append(("m%d" % len(M), item_left[1]))
         M.append(("read", item_left[0], 10))
-    s.main = M
+    # ------------------------------------------------------------------ dirt: stale registrations of other fibers on every channel
+    dirt = extra.get("dirt", "")
+    pre, post, others = dirt_prelude(s, dirt, F)
+    s.main = pre + M + post
+    m_final = [("m%d" % (int(l[1:]) + len(pre)), v) for l, v in m_final]
+    s.meta["dirt"] = dirt or "none"
     # ------------------------------------------------------------------ expectation (from the property text)
     t_bstart = t_ab
     if t_b is None:
@@ -461,12 +510,67 @@ def build(sid, a, ab, fi, b, extra=None):
         b_val = "cA"
     s.expect = {
         # exact resumes of F: (tick, value repr) ; first one is the spawn
-        "F": [(0, "nil"), (t_ab, a_res_r(a_res)), (t_b, b_res_r(b_val)), (t_b, "nil")],
+        "F": ([(0, "nil"), (t_ab, a_res_r(a_res)), (t_b, b_res_r(b_val)), (t_b, "nil")] if ab not in ("immediate", "error")
+              else [(0, "nil"), (t_b, b_res_r(b_val)), (t_b, "nil")]),
+        "others": others,
         "a_log": a_res, "b_log": b_val,
         "item_left": item_left, "m_final": m_final,
         "t_b": t_b, "t_ab": t_ab,
     }
     return s
+
+
+def dirt_prelude(s, dirt, F):
+    """dirt = "" | "r<k>" | "w<j>r<k>": before anything else, k fibers leave an abandoned READER registration on every channel
+    (alternately a cancelled plain take and a select satisfied through another clause) and j fibers an abandoned WRITER
+    registration (plus their junk item) on every unbuffered channel F gives on.  The abandoning fibers stay alive, blocked on
+    cQ, until the very end; none of them may be resumed in between."""
+    import re
+    m = re.match(r"(?:w(\d))?(?:r(\d))?$", dirt)
+    nw, nr = int(m.group(1) or 0), int(m.group(2) or 0)
+    if not nw and not nr:
+        return [], [], {}
+    chans = [c for c in s.chans if c not in ("cC", "cC2")]
+    gives = set()
+    for st in F:
+        w = st
+        while w[0] == "deadline":
+            w = w[2]
+        if w[0] == "give":
+            gives.add(w[1])
+        if w[0] == "select":
+            gives |= set(c[1] for c in w[1] if c[0] == "give")
+    s.chan("cQ", 0)
+    s.chan("cP", 8)
+    pre, cancels, others = [], [], {}
+    n = 0
+    nsel = 0
+    for c in chans:
+        for i in range(nr):
+            name = "P%d" % n
+            n += 1
+            if i % 2 == 0:
+                pre.append(("spawn", name, [("take", c), ("take", "cQ")]))
+                cancels.append(("cancel", name, "p"))
+                others[name] = [(0, "nil"), (0, '"p"'), (70, "nil")]
+            else:
+                pre.append(("spawn", name, [("select", [("take", c), ("take", "cP")]), ("take", "cQ")]))
+                nsel += 1
+                others[name] = [(0, "nil"), (0, "(:take,cP,:pp)"), (70, "nil")]
+        if c in gives and s.chans[c] == 0:
+            for i in range(nw):
+                name = "P%d" % n
+                n += 1
+                pre.append(("spawn", name, [("give", c, "junk"), ("take", "cQ")]))
+                cancels.append(("cancel", name, "p"))
+                others[name] = [(0, "nil"), (0, '"p"'), (70, "nil")]
+    pre.append(("sleep", 0))
+    pre += cancels
+    pre += [("give", "cP", "pp")] * nsel
+    pre.append(("sleep", 0))
+    pre.append(("dump", "dirty"))
+    post = [("close", "cQ"), ("sleep", 0)]
+    return pre, post, others
 
 
 def a_res_r(a_res):
@@ -479,16 +583,22 @@ def a_res_r(a_res):
 b_res_r = a_res_r
 
 
-def matrix():
+DIRTS = ["", "r1", "r3", "w2r2"]
+
+
+def matrix(dirts=DIRTS):
     out = []
     n = 0
     for (a, ab, fi) in a_variants():
         for b in B_KINDS:
-            sc = build("m%04d-%s-%s-%s-%s" % (n, a, ab, fi, b), a, ab, fi, b)
-            if sc is None:
-                continue
-            n += 1
-            out.append(sc)
+            for d in dirts:
+                if d and not a.startswith("bad:") and not any(k in (a, b) for k in ("take", "give", "seltake", "selgive", "dl", "dlx", "same")):
+                    continue        # no channel in the scenario: dirt would change nothing
+                sc = build("m%04d-%s-%s-%s-%s%s" % (n, a.replace(":", "_"), ab, fi, b, "-" + d if d else ""), a, ab, fi, b, {"dirt": d})
+                if sc is None:
+                    continue
+                n += 1
+                out.append(sc)
     return out
 
 
